@@ -1,0 +1,110 @@
+//go:build verif
+
+package engine
+
+import "context"
+
+// VerifHooks are instrumentation points used by an external verification harness.
+// They exist only with the build tag "verif" and are nil unless a harness sets them.
+var VerifHooks struct {
+	// OnCall is called at the very beginning of VM.Arrive, i.e. at every call port.
+	OnCall func(vm *VM, name Atom, args []Term, env *Env)
+	// OnPoll is called at the top of every iteration of the trampoline in Promise.Force, before ctx is polled.
+	OnPoll func(ctx context.Context)
+	// OnChild is called right before Promise.Force runs a delayed child.
+	OnChild func(ctx context.Context)
+	// OnIntern is called inside the critical section of NewAtom after a new atom got interned.
+	OnIntern func(name string, a Atom, n int)
+}
+
+func verifOnCall(vm *VM, name Atom, args []Term, env *Env) {
+	if h := VerifHooks.OnCall; h != nil {
+		h(vm, name, args, env)
+	}
+}
+
+func verifOnPoll(ctx context.Context) {
+	if h := VerifHooks.OnPoll; h != nil {
+		h(ctx)
+	}
+}
+
+func verifOnChild(ctx context.Context) {
+	if h := VerifHooks.OnChild; h != nil {
+		h(ctx)
+	}
+}
+
+func verifOnIntern(name string, a Atom, n int) {
+	if h := VerifHooks.OnIntern; h != nil {
+		h(name, a, n)
+	}
+}
+
+// VerifInstr is one bytecode instruction in exported form.
+type VerifInstr struct {
+	Op      string
+	Operand Term
+}
+
+// VerifClause is one compiled clause in exported form.
+type VerifClause struct {
+	Name  Atom
+	Arity int
+	Raw   Term
+	NVars int
+	Code  []VerifInstr
+}
+
+var verifOpNames = [...]string{
+	opEnter: "enter", opCall: "call", opExit: "exit", opGetConst: "get_const", opPutConst: "put_const",
+	opGetVar: "get_var", opPutVar: "put_var", opGetFunctor: "get_functor", opPutFunctor: "put_functor", opPop: "pop",
+	opCut: "cut", opGetList: "get_list", opPutList: "put_list", opGetPartial: "get_partial", opPutPartial: "put_partial",
+}
+
+func verifClauses(cs clauses) []VerifClause {
+	out := make([]VerifClause, len(cs))
+	for i, c := range cs {
+		vc := VerifClause{Name: c.pi.name, Arity: int(c.pi.arity), Raw: c.raw, NVars: len(c.vars)}
+		for _, in := range c.bytecode {
+			op := in.operand
+			if pi, ok := op.(procedureIndicator); ok {
+				op = pi.Term()
+			}
+			vc.Code = append(vc.Code, VerifInstr{Op: verifOpNames[in.opcode], Operand: op})
+		}
+		out[i] = vc
+	}
+	return out
+}
+
+// VerifProcedure describes one registered procedure.
+type VerifProcedure struct {
+	Name    Atom
+	Arity   int
+	User    bool // user-defined (as opposed to a Go predicate)
+	Dynamic bool
+	Clauses []VerifClause
+}
+
+// VerifProcedures lists every registered procedure; user-defined ones come with their compiled clauses.
+func VerifProcedures(vm *VM) []VerifProcedure {
+	out := make([]VerifProcedure, 0, len(vm.procedures))
+	for pi, p := range vm.procedures {
+		vp := VerifProcedure{Name: pi.name, Arity: int(pi.arity)}
+		if u, ok := p.(*userDefined); ok {
+			vp.User = true
+			vp.Dynamic = u.dynamic
+			vp.Clauses = verifClauses(u.clauses)
+		}
+		out = append(out, vp)
+	}
+	return out
+}
+
+// VerifAtomTable returns the sizes of the two halves of the atom table.
+func VerifAtomTable() (atoms, names int) {
+	atomTable.RLock()
+	defer atomTable.RUnlock()
+	return len(atomTable.atoms), len(atomTable.names)
+}
